@@ -45,7 +45,6 @@ var notBuilt = map[string]string{
 	"C02": "not built: the technique applies (simulated auth/JWKS authority, network faults, fake clock) but world W4 was not built; see DESIGN.md",
 	"C12": "not built yet: world W2 (real Core under the scheduler, porcupine linearizability)",
 	"C13": "not built: world W2 with recording component stubs was not built; see DESIGN.md",
-	"C25": "not built yet: small simulation S1 over the ntpestimator.timeNow seam",
 	"C27": "not built yet: world W3 (recorder journal, crash-state enumeration)",
 	"C28": "not built yet: world W3",
 	"C29": "not built yet: world W3",
